@@ -24,8 +24,8 @@ GAMMAS = list(itertools.product(("pos", "neg"), ("pos", "neg")))
 ACCEPT = {("pos", "pos"): ">=", ("pos", "neg"): ">", ("neg", "pos"): "<=", ("neg", "neg"): "<"}
 COMPLEMENT = {">=": "<", ">": "<=", "<=": ">", "<": ">="}
 
-POS = Sym("pos", ("attr", "array", "sorted", "notnone"))
-NEG = Sym("neg", ("attr", "array", "sorted", "notnone"))
+POS = Sym("pos", ("attr", "array", "sorted", "notnone", "rawdtype"))
+NEG = Sym("neg", ("attr", "array", "sorted", "notnone", "rawdtype"))
 EP = Sym("Ep", ("int", "attr_scalar", "notnone"))
 EN = Sym("En", ("int", "attr_scalar", "notnone"))
 T = Sym("t", ("param", "array", "notnone"))
